@@ -2,6 +2,7 @@ package props
 
 import (
 	"fmt"
+	exsrv "github.com/cybergarage/go-redis/examples/go-redisd/server"
 	"strings"
 
 	"github.com/anishathalye/porcupine"
@@ -204,4 +205,83 @@ func c16RestartExplore(c *fw.Ctx, cs c16Restart, bound int) {
 	}
 	x.Explore()
 	schedAccount(c, x, cs.class()+fmt.Sprint(cs.Initial))
+}
+
+// c16Databases: clients that selected DIFFERENT databases do not interfere at all - each one's
+// replies are what it would get alone - whatever order the databases were first used in
+// (the bundled example store; every schedule within the bound).
+type c16DBCase struct {
+	Kind    string `json:"kind"` // "databases"
+	DBs     []int  `json:"databases"`
+	Choices []int  `json:"choices,omitempty"`
+}
+
+func c16DBExplorer(cs c16DBCase, bound int) *sched.Explorer {
+	x := &sched.Explorer{Bound: bound}
+	x.New = func() *sched.Run {
+		w := &mcWorld{}
+		for i, db := range cs.DBs {
+			v := fmt.Sprintf("client%d", i)
+			w.Scripts = append(w.Scripts, [][]string{{"SELECT", fmt.Sprint(db)}, {"SETNX", "lock", v}, {"INCR", "n"}, {"APPEND", "s", "x"}, {"RPUSH", "l", v}, {"GET", "lock"}, {"LRANGE", "l", "0", "-1"}, {"KEYS", "*"}})
+		}
+		w.Setup = func(m *mcWorld) {
+			ex := exsrv.NewServer()
+			m.Srv = ex.Server
+			ex.Set(nil2conn(), "zero", "0", setOptNone)
+		}
+		return &sched.Run{
+			Body: w.body,
+			Verdict: func(r *vrt.Result) sched.Verdict {
+				if v, ok := panicVerdict(r); ok {
+					return v
+				}
+				obs := repliesString(w.Replies)
+				for i := range cs.DBs {
+					v := fmt.Sprintf("client%d", i)
+					want := []string{`+"OK"`, `:"1"`, `:"1"`, `:"1"`, `:"1"`, `$"` + v + `"`, `[$"` + v + `"]`}
+					if len(w.Replies[i]) != len(want)+1 {
+						return sched.Verdict{Clause: "client-starved", Detail: fmt.Sprintf("client %d got %d of %d replies: %s", i, len(w.Replies[i]), len(want)+1, obs), Obs: obs}
+					}
+					for j, wv := range want {
+						if got := w.Replies[i][j].Reply.String(); w.Replies[i][j].Status != "ok" || got != wv {
+							return sched.Verdict{Clause: "databases-interfere", Detail: fmt.Sprintf("client %d works alone in database %d, but its request #%d was answered %s (alone: %s); all replies: %s", i, cs.DBs[i], j, got, wv, obs), Obs: obs}
+						}
+					}
+					nkeys := 4
+					if cs.DBs[i] == 0 {
+						nkeys = 5 // plus the key the setup put into database 0
+					}
+					if keys := w.Replies[i][len(want)].Reply; len(keys.Elems) != nkeys {
+						return sched.Verdict{Clause: "databases-interfere", Detail: fmt.Sprintf("client %d: KEYS * in database %d lists %s, it created lock, n, s, l", i, cs.DBs[i], keys), Obs: obs}
+					}
+				}
+				return sched.Verdict{Obs: obs}
+			},
+		}
+	}
+	return x
+}
+
+func c16Databases(c *fw.Ctx) {
+	for _, dbs := range [][]int{{2, 1}, {1, 2}, {3, 1}, {1, 0}, {5, 2}} {
+		if !c.Mine() {
+			continue
+		}
+		cs := c16DBCase{Kind: "databases", DBs: dbs}
+		x := c16DBExplorer(cs, 1)
+		x.Expired = c.Expired
+		x.OnExec = func(choices []int, r *vrt.Result, v sched.Verdict) {
+			c.Eval()
+			if strings.HasPrefix(v.Obs, "HARNESS-PANIC") {
+				c.HarnessError("C16 databases %v %s", dbs, v.Obs)
+			}
+			if v.Clause != "" {
+				cc := cs
+				cc.Choices = choices
+				c.Violation("C16|databases|"+v.Clause, v.Detail+fmt.Sprintf(" schedule=%v", choices), cc)
+			}
+		}
+		x.Explore()
+		schedAccount(c, x, fmt.Sprint("databases ", dbs))
+	}
 }
